@@ -86,6 +86,7 @@ type bDID struct {
 	// the multihash algorithm under which the commitment currently in force was made (a controller may move to the
 	// protocol's other algorithm with any operation; the reveal value then still uses the old one)
 	updAlg, recAlg uint
+	lastNote       string // what the client believes the document's note to be
 
 	// what the create was built from (a sibling DID may be created from the same ingredients with another anchor origin)
 	initUpd, initRec *workload.Key
@@ -134,6 +135,7 @@ type bWorld struct {
 
 	monCh, toCh chan time.Time
 	redeliveries int
+	curDID       *bDID // the DID whose client is building an operation right now
 	pendingTick string
 	passKind    string // the kind of the writer pass in progress ("startup", "monitor", "timeout")
 	maxOps      uint
@@ -608,7 +610,7 @@ func (w *bWorld) genPatches(create bool) []workload.PatchDesc {
 	var out []workload.PatchDesc
 
 	for i := 0; i < n; i++ {
-		kinds := []workload.PatchKind{workload.AddKey, workload.AddSvc, workload.RemoveKey, workload.RemoveSvc, workload.AddKey, workload.AddAKA, workload.ReplaceAll, workload.AddNote}
+		kinds := []workload.PatchKind{workload.AddKey, workload.AddSvc, workload.RemoveKey, workload.RemoveSvc, workload.AddKey, workload.AddAKA, workload.ReplaceAll, workload.AddNote, workload.ReplaceNote}
 		kind := kinds[w.k.Draw(len(kinds), "patch.kind")]
 
 		if create && i == 0 {
@@ -639,7 +641,32 @@ func (w *bWorld) genPatches(create bool) []workload.PatchDesc {
 			ids = nil // replace with the empty document {}
 		}
 
-		out = append(out, workload.PatchDesc{Kind: kind, IDs: ids, Mark: w.nextMark()})
+		if kind == workload.ReplaceNote && create {
+			kind = workload.AddNote // (a create whose test-and-replace cannot apply would be an invalid input)
+		}
+
+		mark := w.nextMark()
+
+		// notes: an ietf-json-patch that adds /note, or one that tests the value the client believes is there and replaces
+		// it (it fails to apply - the update then only consumes its commitment - when the belief is wrong)
+		if kind == workload.AddNote || kind == workload.ReplaceNote {
+			mark = noteValue(mark)
+
+			if kind == workload.ReplaceNote {
+				guess := "never-set"
+				if w.curDID != nil && w.curDID.lastNote != "" {
+					guess = w.curDID.lastNote
+				}
+
+				ids = []string{guess}
+			}
+
+			if w.curDID != nil {
+				w.curDID.lastNote = mark
+			}
+		}
+
+		out = append(out, workload.PatchDesc{Kind: kind, IDs: ids, Mark: mark})
 	}
 
 	return out
@@ -695,6 +722,11 @@ func (w *bWorld) genOpaque() (string, []workload.PatchDesc) {
 	note := ""
 	if k.Draw(3, "opaque.note") == 0 {
 		note = "note-" + w.nextMark()
+
+		// the extra top-level member may carry a name that needs escaping in a JSON pointer / JSON string
+		if k.Draw(3, "opaque.oddname") == 0 {
+			note = workload.OddMemberNames[k.Draw(len(workload.OddMemberNames), "opaque.oddname.which")] + "\x00" + note
+		}
 	}
 
 	if len(keys) == 0 && len(svcs) == 0 && len(uris) == 0 && note == "" {
@@ -792,8 +824,40 @@ func (w *bWorld) settled(d *bDID) bool {
 	return true
 }
 
+// untransformableCreate (C15, intake half): a create that passes intake validation but whose document the DID transformer
+// cannot render (an Ed25519 verification key type over an EC JWK): whether the node accepts or refuses it, a refusal
+// must leave no trace in the batch queue or the unpublished-operation store.
+func (w *bWorld) untransformableCreate() {
+	k := w.k
+	hash := w.proto.CurrentVersion().P.MultihashAlgorithms[0]
+	tmp := &bDID{Idx: -1, KeyType: workload.Ed25519, Hash: hash}
+	tmp.Upd, tmp.Rec = w.newKey(tmp), w.newKey(tmp)
+
+	p, err := patch.NewAddPublicKeysPatch(`[{"id":"e1","type":"Ed25519VerificationKey2018","purposes":["authentication"],"publicKeyJwk":{"kty":"EC","crv":"P-256","x":"` +
+		w.nextMark() + `","y":"nM84jDHCMOTGTh_ZdHq4dBBdo4Z5PkEOW9jA8z8IsGc"}}]`)
+	if err != nil {
+		return
+	}
+
+	req, err := workload.Build(&workload.OpSpec{Type: operation.TypeCreate, Hash: hash, NextUpdate: tmp.Upd, NextRecovery: tmp.Rec, Patches: []patch.Patch{p}, AnchorOrigin: "origin-x"})
+	if err != nil {
+		return
+	}
+
+	op := w.newOp(tmp, operation.TypeCreate, req, &refmodel.Op{Type: refmodel.Create, Label: "byz/untransformable-create"})
+	op.Byz = "untransformable-create"
+	k.Count("probe:byz-untransformable-create")
+	w.submit(op)
+}
+
 func (w *bWorld) clientStep(d *bDID) {
 	k := w.k
+	w.curDID = d
+
+	if w.prop == "C15" && k.Draw(10, "client.untransformable") == 0 {
+		w.untransformableCreate()
+	}
+
 	v := w.proto.CurrentVersion()
 	hash := v.P.MultihashAlgorithms[0]
 
@@ -861,7 +925,7 @@ func (w *bWorld) clientStep(d *bDID) {
 		req, err := workload.Build(&workload.OpSpec{Type: operation.TypeCreate, Hash: hash, NextUpdate: d.Upd, NextRecovery: d.Rec, Patches: patches, OpaqueDocument: opaque, AnchorOrigin: origin,
 			SuffixType: suffixType})
 		if err != nil {
-			w.fail("HARNESS", "client-build", err.Error())
+			w.fail("C11", "builder/valid-input-refused", "the client request builder refused valid input: "+err.Error())
 
 			return
 		}
@@ -993,7 +1057,7 @@ func (w *bWorld) clientStep(d *bDID) {
 
 	req, err := workload.Build(spec)
 	if err != nil {
-		w.fail("HARNESS", "client-build", err.Error())
+		w.fail("C11", "builder/valid-input-refused", "the client request builder refused valid input: "+err.Error())
 
 		return
 	}
@@ -1255,7 +1319,7 @@ func (w *bWorld) submit(op *bOp) {
 
 		for key, n := range pendingBefore {
 			// (only when the observer stored nothing meanwhile: processing a transaction cleans pending copies up)
-			if o := w.byKey[key]; key != op.Key && pendingNow[key] < n && o != nil && o.Stored == 0 && !w.replayedOp(o) && w.store.PutN == putsBefore {
+			if o := w.byKey[key]; key != op.Key && pendingNow[key] < n && o != nil && !w.anyStoredOrReplayed(key) && w.store.PutN == putsBefore {
 				w.fail("C15", "intake/refusal-removed-pending-copy", fmt.Sprintf("op%d (%s did%d) was refused (%d %s); the unpublished copy of op%d (%s), which is not anchored yet, disappeared with it",
 					op.ID, op.Type, d.Idx, code, short40(op.Err), o.ID, o.Type))
 			}
@@ -1393,6 +1457,18 @@ func (w *bWorld) uniqueRequest(op *bOp) bool {
 func (w *bWorld) unpubConfigured(t operation.Type) bool {
 	for _, x := range w.unpubTypes {
 		if x == t {
+			return true
+		}
+	}
+
+	return false
+}
+
+// anyStoredOrReplayed: has ANY submission of this request (byte-identical requests - a retry, a deterministic re-build -
+// share one key) been stored by the observer, or been part of a replayed transaction? Its pending copy may then be gone.
+func (w *bWorld) anyStoredOrReplayed(key string) bool {
+	for _, o := range w.ops {
+		if o.Key == key && (o.Stored > 0 || w.replayedOp(o)) {
 			return true
 		}
 	}
